@@ -60,26 +60,9 @@ func stubDispatchRule(p *core.Program, r *core.Report, rule string, entries []*s
 			key := fmt.Sprintf("%s/invoke-%s#%d", short(fn), c.Common().Method.Name(), n)
 			recvT := stub.Signature.Recv().Type()
 			v := c.Common().Value
-			blocked := eng.EdgeSet{}
-			for _, rf := range eng.Referrers(v) {
-				ta, ok := rf.(*ssa.TypeAssert)
-				if !ok || !ta.CommaOk || !types.Identical(ta.AssertedType, recvT) {
-					continue
-				}
-				for _, tr := range eng.Referrers(ta) {
-					ex, ok := tr.(*ssa.Extract)
-					if !ok || ex.Index != 1 {
-						continue
-					}
-					for _, er := range eng.Referrers(ex) {
-						if ifi, ok := er.(*ssa.If); ok {
-							blocked[[2]int{ifi.Block().Index, 1}] = true
-						}
-					}
-				}
-			}
-			if len(blocked) > 0 && !eng.Reachable(fn.Blocks[0], blocked)[c.Block()] {
-				r.OK(rule, key, p.Pos(c.Pos()), true, "receiver type "+eng.TypeShort(recvT)+" is excluded by a comma-ok assertion on every path to the invoke")
+			excluded := stubExcluded(p, fn, v, c.Block(), recvT, 0)
+			if excluded {
+				r.OK(rule, key, p.Pos(c.Pos()), true, "receiver type "+eng.TypeShort(recvT)+" is excluded by a comma-ok assertion on every path to the invoke (in the function, or at every call of this unexported helper)")
 			} else {
 				r.Bad(rule, key, p.Pos(c.Pos()), "interface call "+c.Common().Method.Name()+"() may dispatch to the panicking stub "+short(stub)+" (a collection nested in a collection reaches it)", reach.Path(fn)...)
 			}
@@ -101,7 +84,27 @@ func c08(p *core.Program, r *core.Report) {
 		entries = append(entries, fn)
 		entries = append(entries, fn.AnonFuncs...)
 	}
-	stubDispatchRule(p, r, r1, entries, 3)
+	stubDispatchRule(p, r, r1, entries, 1)
+
+	// ---- rule 1b: a work list of members is walked to its end
+	const r1b = "members-work-list-visited"
+	r.Rule(r1b, "in the module functions reachable from Bounds.Extend and the Bounds methods no append is dead: a slice that is grown inside a loop and whose grown value is never read afterwards (it only flows back into the append) is a work list ranged over with `for range` - the range expression is evaluated once, so the members of nested collections appended during the walk are never visited and the box does not cover them", 0)
+	{
+		reach := eng.ReachFrom(p, entries)
+		n := 0
+		for _, fn := range reach.Order {
+			if !core.InModule(fn) || fn.Blocks == nil {
+				continue
+			}
+			for _, a := range deadAppends(fn) {
+				n++
+				r.Bad(r1b, fmt.Sprintf("%s/dead-append#%d", short(fn), n), p.Pos(a.Pos()), "what is appended at "+p.Pos(a.Pos())+" is never read: the slice is only appended to again (a `for range` over a work list that grows inside the loop visits the original members only)", reach.Path(fn)...)
+			}
+		}
+		if n == 0 {
+			r.OK(r1b, "no-dead-append", "", true, fmt.Sprintf("%d functions scanned, every appended slice is read", len(reach.Order)))
+		}
+	}
 
 	// ---- rule 2: polarity
 	const r2 = "min-max-polarity"
@@ -598,4 +601,54 @@ func zmPairs(p *core.Program, pkg *packages.Package, fd *ast.FuncDecl) (map[[2]i
 		return true
 	})
 	return pairs, step
+}
+
+// stubExcluded: the dynamic type recvT is excluded for interface value v at block `at` of fn - by a comma-ok
+// assertion on v whose failing edge every path to `at` takes, or, when v is a parameter of an unexported function,
+// at every one of its (static) call sites in the module.
+func stubExcluded(p *core.Program, fn *ssa.Function, v ssa.Value, at *ssa.BasicBlock, recvT types.Type, depth int) bool {
+	blocked := eng.EdgeSet{}
+	for _, rf := range eng.Referrers(v) {
+		ta, ok := rf.(*ssa.TypeAssert)
+		if !ok || !ta.CommaOk || !types.Identical(ta.AssertedType, recvT) {
+			continue
+		}
+		for _, tr := range eng.Referrers(ta) {
+			ex, ok := tr.(*ssa.Extract)
+			if !ok || ex.Index != 1 {
+				continue
+			}
+			for _, er := range eng.Referrers(ex) {
+				if ifi, ok := er.(*ssa.If); ok {
+					blocked[[2]int{ifi.Block().Index, 1}] = true
+				}
+			}
+		}
+	}
+	if len(blocked) > 0 && !eng.Reachable(fn.Blocks[0], blocked)[at] {
+		return true
+	}
+	prm, isPrm := v.(*ssa.Parameter)
+	if !isPrm || depth > 1 || fn.Object() == nil || fn.Object().Exported() {
+		return false
+	}
+	idx := -1
+	for i, q := range fn.Params {
+		if q == prm {
+			idx = i
+		}
+	}
+	node := p.CallGraph().Nodes[fn]
+	if idx < 0 || node == nil || len(node.In) == 0 {
+		return false
+	}
+	for _, e := range node.In {
+		if e.Site == nil || e.Site.Common().IsInvoke() || e.Site.Common().StaticCallee() != fn || idx >= len(e.Site.Common().Args) {
+			return false
+		}
+		if !stubExcluded(p, e.Caller.Func, e.Site.Common().Args[idx], e.Site.Block(), recvT, depth+1) {
+			return false
+		}
+	}
+	return true
 }
